@@ -248,7 +248,7 @@ def run_c31(ctx, replay):
         mc, states = dump_states(ctx, "Gen_ConfigMerge", gcfg % "none", keep=lambda s: s["ph"] == "in", workers=2)
         if mc.violated:
             raise vlib.Inconclusive("the merge definition violates %s -- spec error, no verdict" % mc.violated)
-        for d in ("never_merged", "shared_tags"):
+        for d in ("never_merged", "shared_tags", "aliased_list"):
             expect_model_violation(ctx, "Gen_ConfigMerge", gcfg % d, d)
         scheds = [[v] for v in c31_vectors(states, ctx.seed)]
     tcfg = TRACE_CFG + consts
